@@ -220,4 +220,37 @@ def playerGv (s : State) (i : Nat) (p : Player) : Gv :=
     inThreads := s.threads.contains i,
     raises := p.pc == .write && p.todo.isEmpty }
 
+-- ---------------------------------------------------------------------------------------------
+-- the control thread: `AudioIO.play`, `AudioIO.close`, `AudioThread.pause` / `play` / `stop`
+-- ---------------------------------------------------------------------------------------------
+
+/-- the method behind a control call -/
+def ctlMeth : Ctl → String
+  | .pause => "AudioThread.pause"
+  | .resume => "AudioThread.play"
+  | .stop => "AudioThread.stop"
+
+/-- the anchored method a program counter of the control thread is a yield point of -/
+def mpcMethod : MPc → Option String
+  | .begin | .done | .jJoin _ => none
+  | .pAcq _ _ | .pRaiseRel | .pGoSet _ | .pOpen _ | .pStart _ | .pRel => some "AudioIO.play"
+  | .cAcq k _ | .cEvt k _ | .cRel k _ => some (ctlMeth k)
+  | .kHAcq | .kMAcq | .kMRel _ | .kSAcq _ | .kSEvt _ | .kSRel _ | .kJoin _ | .kTerm | .kAssertRel | .kHRel _ =>
+    some "AudioIO.close"
+
+/-- the program counters whose step ends the call (the last lock release of the method) -/
+def mpcReturns : MPc → Bool
+  | .pRaiseRel | .pRel | .cRel _ _ | .kAssertRel | .kHRel _ => true
+  | _ => false
+
+/-- the guards of `play` / `close` as the control thread reads them in its next step; the one piece
+    of control state a program counter carries besides its yield point: `kMRel none` releases the
+    manager's lock on the way out of the loop (`break` in the `except IndexError`) -/
+def mainGv (cfg : Cfg) (s : State) : Gv :=
+  { finished := s.finished, wait := cfg.wait, threadsEmpty := s.threads.isEmpty,
+    streamsOpen := s.players.any streamOpen,
+    exit := match s.mpc with
+      | .kMRel none => .brk
+      | _ => .normal }
+
 end ALV.C17
